@@ -16,4 +16,4 @@ INIT Init
 NEXT Next
 VIEW View
 CONSTRAINT EmitStep
-INVARIANTS TypeOK OnlyAuthentic NoVerifierRejects RealNotBypassed RejectKeepsState Complete Monotone CacheIsLastAccepted ReplayRejected ReplayAsFresh ReplayWellFormed KnownIsPresented ReplaySourced EmitFan
+INVARIANTS TypeOK OnlyAuthentic NoVerifierRejects RealNotBypassed RejectKeepsState Complete Monotone CacheIsLastAccepted ReplayRejected ReplayAsFresh ReplayWellFormed KnownIsPresented ReplaySourced FloorIsOfColdKey ProbesTellFloor CounterFloorSurvivesChurn EmitFan
